@@ -174,7 +174,43 @@ pub fn gen_number_phrase(rng: &mut Rng, p: &Pool, out: &mut Vec<&'static str>) {
 
 /// Agglutinated number words for the languages that write numbers as one word
 /// (de, nl, it): units+hundreds, tens, ordinals glued together, as a single token.
+/// A whole six-digit number written as ONE token (60-80 bytes): the languages that agglutinate,
+/// and hyphen chains for French and English.
+pub fn gen_long_compound(rng: &mut Rng, p: &Pool) -> String {
+    let u = |rng: &mut Rng| rng.word(p.units);
+    match p.code {
+        "de" => {
+            let u: [&str; 4] = [rng.word(&["zwei", "drei", "vier", "fünf", "sechs", "sieben", "acht", "neun"]); 4];
+            let t = rng.word(&["zwanzig", "dreißig", "vierzig", "fünfzig", "sechzig", "siebzig", "achtzig", "neunzig"]);
+            format!("{}hundert{}und{}tausend{}hundert{}und{}", u[0], u[1], t, u[2], u[3], t)
+        }
+        "nl" => {
+            let a = rng.word(&["twee", "drie", "vier", "vijf", "zes", "zeven", "acht", "negen"]);
+            let t = rng.word(&["twintig", "dertig", "veertig", "vijftig", "zestig", "zeventig", "tachtig", "negentig"]);
+            format!("{a}honderd{a}en{t}duizend{a}honderd{a}en{t}")
+        }
+        "it" => {
+            let a = rng.word(&["due", "tre", "quattro", "cinque", "sei", "sette", "nove"]);
+            let t = rng.word(&["venti", "trenta", "quaranta", "cinquanta", "sessanta", "settanta", "novanta"]);
+            format!("{a}cento{t}{a}mila{a}cento{t}{a}")
+        }
+        "fr" => {
+            let a = rng.word(&["deux", "trois", "quatre", "cinq", "six", "sept", "huit", "neuf"]);
+            format!("{a}-cent-quatre-vingt-dix-{a}-mille-{a}-cent-quatre-vingt-dix-{a}")
+        }
+        "en" => {
+            let a = rng.word(&["two", "three", "four", "five", "six", "seven", "eight", "nine"]);
+            let t = rng.word(&["twenty", "thirty", "forty", "fifty", "sixty", "seventy", "eighty", "ninety"]);
+            format!("{a}-hundred-{t}-{a}-thousand-{a}-hundred-{t}-{a}")
+        }
+        _ => format!("{}-{}", u(rng), u(rng)),
+    }
+}
+
 pub fn gen_compound(rng: &mut Rng, p: &Pool) -> String {
+    if rng.chance(1, 6) {
+        return gen_long_compound(rng, p);
+    }
     let mut s = String::new();
     match p.code {
         "de" | "nl" => {
@@ -280,8 +316,12 @@ pub fn gen_stream(rng: &mut Rng, p: &Pool, cfg: &GenCfg, target_len: usize) -> V
     let mut next_owned = 0usize;
     for (i, w) in words.iter().enumerate() {
         if i > 0 && cfg.glue_pct > 0 && rng.chance(cfg.glue_pct, 100) {
-            let g = rng.word(&GLUE);
-            out.push(TokSpec { text: g.to_string(), lower: g.to_string(), separated: false, nan: false });
+            // usually one glue token, sometimes a run of them
+            let k = *rng.pick(&[1usize, 1, 1, 1, 2, 2, 3, 5]);
+            for _ in 0..k {
+                let g = rng.word(&GLUE);
+                out.push(TokSpec { text: g.to_string(), lower: g.to_string(), separated: false, nan: false });
+            }
         }
         let w: &str = if *w == "\u{1}" {
             next_owned += 1;
@@ -293,7 +333,12 @@ pub fn gen_stream(rng: &mut Rng, p: &Pool, cfg: &GenCfg, target_len: usize) -> V
         let lower = text.to_lowercase();
         // display form vs normalised form (ASR tokens): text() may carry more than case
         let text = if cfg.display_pct > 0 && rng.chance(cfg.display_pct, 100) {
-            format!("{}{}", text, rng.word(&[",", ".", "!", "…", " ", "’s", ")"]))
+            if rng.chance(1, 8) {
+                // a very long display form (e.g. markup kept on the token)
+                format!("{}{}", text, "·".repeat(rng.range(30, 140)))
+            } else {
+                format!("{}{}", text, rng.word(&[",", ".", "!", "…", " ", "’s", ")"]))
+            }
         } else {
             text
         };
